@@ -51,6 +51,8 @@ def gen(rng, tier):
 def impl(case):
     if case['kind'] == 'mask':
         from cardutil import card
+        if (len(case['s']) + ord(case['mc'][0])) % 2:       # by keyword / positionally, in turn
+            return {'out': outcome(lambda: card.mask(card_number=case['s'], mask_char=case['mc']), hs)}
         return {'out': outcome(lambda: card.mask(case['s'], case['mc']), hs)}
     from cardutil import iso8583
     b = bytes.fromhex(case['bytes'])
